@@ -287,6 +287,16 @@ WHITESPACE = { "a" ~ "b" | wsx }
             lines.append(f'{base}m = {KINDS[km]}{{ {base}i ~ "c" }}')
             lines.append(f'{base}o = {KINDS[ko]}{{ "x" ~ {base}m+ }}')
         add(f"s_kinds_{sname}", "\n".join(lines) + "\n" + stext)
+        # targeted inputs: the family's own sentences with skippable characters inserted at every gap
+        extra = set()
+        for base in ("ab", "abb", "abc", "abbc", "xabc", "xabbc", "xabcabc", "xabcabbc"):
+            gaps = range(len(base) + 1)
+            for k in (0, 1, 2):
+                for pos in itertools.combinations(gaps, k):
+                    for ch in ((" ",) if sname == "w" else ("#",) if sname == "c" else (" ", "#") if sname == "wc" else (" ",)):
+                        t = "".join((ch if j in pos else "") + (base[j] if j < len(base) else "") for j in range(len(base) + 1))
+                        extra.add(t)
+        gs[-1]["inputs"] = sorted(extra)
     return gs
 
 
@@ -543,6 +553,7 @@ def inputs_for(g, rnd, maxlen, nrand, extra_alpha=()):
         nxt = [s + c for s in frontier for c in alpha]
         res.extend(nxt)
         frontier = nxt
+    res.extend(x for x in g.get("inputs", []) if x not in res)
     big = list(g["alphabet"]) + [" ", "/", "#", "\n", "\r", "x", "0", "é", "中", "\U0001F600"]
     for _ in range(nrand):
         n = rnd.randint(maxlen + 1, maxlen + 6)
